@@ -32,6 +32,7 @@ import (
 	"verif/internal/harness"
 	"verif/internal/keys"
 	"verif/internal/memstore"
+	"verif/internal/pki"
 	"verif/internal/reflog"
 	"verif/internal/rfc6962"
 	"verif/internal/world"
@@ -42,6 +43,7 @@ type Step struct {
 	Spec      *world.ChainSpec
 	Ref       int   // resubmit: index (mod count) into earlier fresh submissions
 	FlipRoot  bool  // resubmit with the root included / omitted the other way round
+	AltPath   bool  // resubmit the same certificate through another valid chain, where there is one (cross-signed CA: the path to the other root; twin of a root in the chain: the chain without it)
 	AdvanceNs int64 // advance
 	SeqN      int   // sequence: how many pending leaves (-1 all)
 	Ext       []byte // foreign: the CtExtensions of the stored entry
@@ -111,7 +113,7 @@ func gen(t *rapid.T) Case {
 			if rapid.IntRange(0, 9).Draw(t, "advfirst") < 7 {
 				c.Steps = append(c.Steps, Step{Kind: "advance", AdvanceNs: signed(t, rapid.Int64Range(1e6, 90e9).Draw(t, "adv2"))})
 			}
-			c.Steps = append(c.Steps, Step{Kind: "resubmit", Ref: rapid.IntRange(0, 7).Draw(t, "ref"), FlipRoot: rapid.Bool().Draw(t, "flip")})
+			c.Steps = append(c.Steps, Step{Kind: "resubmit", Ref: rapid.IntRange(0, 7).Draw(t, "ref"), FlipRoot: rapid.Bool().Draw(t, "flip"), AltPath: rapid.Bool().Draw(t, "altpath")})
 		case k <= 8:
 			c.Steps = append(c.Steps, Step{Kind: "advance", AdvanceNs: signed(t, rapid.Int64Range(1, 90e9).Draw(t, "adv"))})
 		default:
@@ -472,8 +474,14 @@ func check(t *testing.T, c Case) (v harness.Verdict) {
 		case b.Spec.RootTwin == 2:
 			v.Class("cross-certificate-of-trusted-root-in-chain")
 		}
-		if n := len(b.Spec.Inters); n > 0 && strings.HasSuffix(b.Spec.Inters[n-1], "-nonull") {
+		if n := len(b.Spec.Inters); n > 0 && strings.Contains(b.Spec.Inters[n-1], "-nonull") {
 			v.Class("issuer-rsa-key-without-null-parameters")
+		}
+		if n := len(b.Spec.Inters); n > 0 && strings.HasSuffix(b.Spec.Inters[n-1], "-cteku") {
+			v.Class("issuing-ca-lists-ct-eku")
+		}
+		if b.Spec.PreIssAKIFull {
+			v.Class("pre-issuer-aki-with-issuer-and-serial")
 		}
 	}
 	for i, s := range c.Steps {
@@ -515,6 +523,28 @@ func check(t *testing.T, c Case) (v harness.Verdict) {
 				continue
 			}
 			f := firsts[s.Ref%len(firsts)]
+			if sp := f.built.Spec; s.AltPath && !sp.RootOnly && (sp.Cross || sp.RootTwin != 0) {
+				// the same certificate, another valid chain: this request's validated chain is what goes to the backend
+				// with it; the duplicate answer still repeats the first timestamp
+				alt := sp
+				if sp.Cross {
+					alt.CrossAlt = !sp.CrossAlt
+				} else {
+					alt.RootTwin = 0
+				}
+				ab := *world.Build(alt)
+				ab.Leaf = f.built.Leaf
+				ab.Path = append([]*pki.Cert{f.built.Leaf}, ab.Path[1:]...)
+				ab.Full = append([][]byte{f.built.Leaf.DER}, ab.Full[1:]...)
+				ab.Submit = ab.Full[:len(ab.Full)-1]
+				if s.FlipRoot {
+					ab.Submit = ab.Full
+				}
+				v.Class("resubmitted-through-another-valid-chain")
+				f2 := f
+				submit(i, &ab, ab.Submit, &f2)
+				continue
+			}
 			chain := f.built.Submit
 			if s.FlipRoot && !f.built.Spec.RootOnly {
 				if len(chain) == len(f.built.Full) {
